@@ -56,6 +56,7 @@ Theorem C03_action_accepted :
   d_must_follow d = None ->
   Forall arg_ok args ->
   feed (new_frame d AtTop) args (p_loaded st) = FOk fN ->
+  pending_param fN = false ->
   steps T st (mk TIdentifier name :: flat_map arg_toks args ++ [mk TSemicolon [59%N]]) =
   Some
     {|
